@@ -255,6 +255,24 @@ func BuildCorpus() []*CorpusFile {
 		d := asciiSTL(n, n == 1)
 		add(fmt.Sprintf("stl_ascii_%d", n), "stl", d, tokenFields(d))
 	}
+	// files longer than bufio's 4096-byte buffer: refill boundaries fall inside records
+	{
+		d := model3d.EncodeSTL(smallMesh(100))
+		add("stl_bin_100", "stl", d, []Field{{Off: 80, Len: 4, Kind: "u32le", Role: "count"}})
+		d = asciiSTL(30, true)
+		add("stl_ascii_30", "stl", d, nil)
+		d = model3d.EncodePLY(smallMesh(60), colorOf)
+		add("ply_mesh_60", "plymesh", d, nil)
+		var b strings.Builder
+		b.WriteString("OFF\n300 100 0\n")
+		for i := 0; i < 300; i++ {
+			fmt.Fprintf(&b, "%d %d.25 -%d\n", i%17, i%5, i%3)
+		}
+		for i := 0; i < 100; i++ {
+			fmt.Fprintf(&b, "3 %d %d %d\n", i*3, i*3+1, i*3+2)
+		}
+		add("off_300", "off", []byte(b.String()), nil)
+	}
 	d := offTetra(false)
 	add("off_tetra", "off", d, tokenFields(d))
 	d = offTetra(true)
